@@ -236,7 +236,7 @@ def check_c13(run):
     if thorough:
         # (the 2-waiter deadlock query at 60 steps / 2 pre-emptions does not finish within 20 min: the lost-wake-up clause of the
         # safety query covers the 2-waiter "nobody will notify" states, the deadlock query stays with the 1-waiter configuration)
-        configs = [(1, True, None, 64, True), (2, False, 2, 46, False)]
+        configs = [(1, True, 2, 64, True), (2, False, 2, 48, False)]
 
     def mk(nw, bg, mp, K, with_deadlock):
         def ob(o):
